@@ -161,7 +161,7 @@ func NewSession() (*Session, error) {
 		s.Close()
 		return nil, err
 	}
-	s.Env = &Env{GoCache: gc, WireBin: filepath.Join(dir, "wire"), MemKB: 8 << 20}
+	s.Env = &Env{GoCache: gc, WireBin: filepath.Join(dir, "wire"), MemKB: 4 << 20}
 	if err := BuildWire(s.Env, s.Env.WireBin); err != nil {
 		s.Close()
 		return nil, err
@@ -201,7 +201,7 @@ func ChildMain(cfgPath string) int {
 		return 2
 	}
 	c := &Ctx{Prop: cfg.Prop, Tier: cfg.Tier, Seed: cfg.Seed, Shard: cfg.Shard, NShards: cfg.NShards,
-		Env: &Env{WireBin: cfg.Wire, GoCache: cfg.GoCache, MemKB: 8 << 20}, Dir: cfg.Dir, Res: newShardResult()}
+		Env: &Env{WireBin: cfg.Wire, GoCache: cfg.GoCache, MemKB: 4 << 20}, Dir: cfg.Dir, Res: newShardResult()}
 	func() {
 		defer func() {
 			if r := recover(); r != nil {
